@@ -73,9 +73,11 @@ theorem C08_store_is_last_write {q b : Nat} {c0 c : Cfg St Thread} (h0 : Init q 
   rw [hi.ws.lastW_eq o, hm, hi.ws.store_eq o]
   rfl
 
-/-- **Stop waits.**  Every `StopBatchWriter` return on every trace found every object whose `Enqueue` had
-returned before Stop was first invoked written (by a BatchWrite that started after that Enqueue call),
-committed and done — for every interleaving, including producers racing with Stop. -/
+/-- **Stop waits — every Stop call.**  The pool holds any number of Stop callers.  At the return of *each*
+`StopBatchWriter` call, every object whose accepted `Enqueue` had returned before *that* call was invoked has
+been written (by a BatchWrite that started after that Enqueue call), committed and done (`Mon.snap t` is taken
+at `stopCall t` and checked at `stopRet t`) — for every interleaving, including producers racing with Stop and
+Stop calls overlapping each other. -/
 theorem C08_stop_waits {q b : Nat} {c0 c : Cfg St Thread} (h0 : Init q b c0) (hr : Reach sys c0 c) :
     Why.stopReturnedEarly ∉ (Mon.run (trace c)).errs := by
   simp [errs_nil h0 hr]
@@ -146,19 +148,35 @@ theorem C08_statement_safety {q b : Nat} {c0 c : Cfg St Thread} (h0 : Init q b c
 
 /-! ### Non-vacuity: complete runs of the repaired model, among them the three formerly failing schedules -/
 
+theorem nodup_map_pair (l : List Nat) (h : l.Nodup) : (l.map (fun i => ((false, i) : Bool × Nat))).Nodup := by
+  induction l with
+  | nil => simp
+  | cons a l ih =>
+    rw [List.nodup_cons] at h
+    simp only [List.map_cons, List.nodup_cons, List.mem_map, Prod.mk.injEq, true_and, exists_eq_right]
+    exact ⟨h.1, ih h.2⟩
+
 theorem init_witness (q p : Nat) (f : Nat → Nat) : Init q 1 (initSt q 1, witnessThreads p f) := by
   refine ⟨rfl, ?_, ?_⟩
   · intro t ht
     simp only [witnessThreads, List.mem_append, List.mem_map, List.mem_cons, List.not_mem_nil, or_false] at ht
     rcases ht with ⟨i, _, rfl⟩ | rfl | rfl <;> rfl
   · simp only [distinctIds, witnessThreads, List.filterMap_append, List.filterMap_map]
-    have : (List.filterMap (Thread.pid ∘ fun i => Thread.prod i PPc.idle 0 [f i]) (List.range p)) = List.range p := by
+    have : (List.filterMap (Thread.pid ∘ fun i => Thread.prod i PPc.idle 0 [f i]) (List.range p))
+        = (List.range p).map (fun i => (false, i)) := by
       induction p with
       | zero => rfl
       | succ n ih => simp [List.range_succ, List.filterMap_append, ih, Thread.pid]
-    have e : List.filterMap Thread.pid [Thread.stopper 0 SPc.idle, Thread.writer] = [] := rfl
-    rw [this, e, List.append_nil]
-    exact List.nodup_range
+    have e : List.filterMap Thread.pid [Thread.stopper 0 SPc.idle, Thread.writer] = [(true, 0)] := rfl
+    rw [this, e, List.nodup_append]
+    refine ⟨?_, by simp, ?_⟩
+    · exact nodup_map_pair _ List.nodup_range
+    · intro a ha b hb
+      simp only [List.mem_map, List.mem_range] at ha
+      obtain ⟨i, _, rfl⟩ := ha
+      simp only [List.mem_singleton] at hb
+      subst hb
+      simp
 
 /-- producer 0 enqueues object 0 completely, the writer takes it, writes, commits, calls Done; Stop;
 the writer exits; Stop returns. -/
@@ -179,6 +197,16 @@ def windowBlockCfg : Cfg St Thread := runSched sys (initSt 1 1, witnessThreads 2
 set_option maxRecDepth 4000 in
 example : windowCfg.1.wpc = .exited ∧ (∀ t ∈ windowCfg.2, t.finished = true) ∧ okFinal (trace windowCfg) = true ∧
     (Mon.run (trace windowCfg)).dn 0 = 1 ∧ (trace windowCfg).getLast? = some (.stopRet 0) := by decide
+
+def twoStopsCfg : Cfg St Thread := runSched sys (initSt 1 1, twoStopsThreads) twoStopsSched
+
+-- two overlapping Stop calls: the second one is invoked while the first waits and the object is inside
+-- BatchWrite; neither returns before the Done
+set_option maxRecDepth 4000 in
+example : twoStopsCfg.1.wpc = .exited ∧ (∀ t ∈ twoStopsCfg.2, t.finished = true) ∧ okFinal (trace twoStopsCfg) = true ∧
+    trace twoStopsCfg = [.enqCall 0 0, .hook 0, .schedNew 0, .enqRet 0 0, .reset 0, .write 0 1, .stopCall 0,
+      .stopCall 1, .commit, .done 0, .stopRet 0, .stopRet 1] ∧
+    ((Mon.run (trace twoStopsCfg)).snap 1) 0 = 1 := by decide
 
 set_option maxRecDepth 4000 in
 example : windowDupCfg.1.wpc = .exited ∧ (∀ t ∈ windowDupCfg.2, t.finished = true) ∧
